@@ -30,12 +30,9 @@ func vhDispose(storage SlabStorage, s Storable) {
 //vh:prop C01 C05 C09 C06 C03
 //vh:param leaves 2 3
 //vh:param perleaf 3 5
+//vh:param symT 1 1
 func VH_C01_ArrayStep() {
-	T := uint32(256)
-	if vhParam("symT", 0) == 1 {
-		T = vhRange32("T", 256, 32768)
-	}
-	vhSetThreshold(T)
+	vhThreshold()
 	logst := &vLogStorage{BasicSlabStorage: vhNewBasicStorage()}
 	storage := logst.BasicSlabStorage
 	addr := vhAddr(1)
